@@ -275,6 +275,11 @@ fn items(c: &mut Cur, f: &mut File, until_brace: bool) -> PResult<()> {
             d.end = c.pos();
             f.defs.push(d);
         } else {
+            if let Some(t) = c.peek() {
+                if t.kind == crate::lex::TokKind::Punct && t.text != "@" {
+                    return c.fail(true, format!("a definition cannot start with `{}`", t.text));
+                }
+            }
             return c.fail(false, "unrecognised construct");
         }
     }
